@@ -90,6 +90,7 @@ UNIT = {
              foreign={'get': {'*': 'edge_value__get_float'}}),
         dict(cls='forest', name='createReducedNode', file=FC, loops=4),
         dict(cls='forest', name='deleteNode', file=FC),
+        dict(cls='forest', name='modifyReducedNodeInPlace', file=FC),
         dict(cls='forest', name='unlinkAllDown', file=FH, loops=1),
         dict(cls='forest', name='linkNode', file=FH, sel=r'^node_handle p$'),
         dict(cls='forest', name='getTransparentNode', file=FH),
@@ -141,6 +142,7 @@ UNIT = {
         job('normalize_evstar', 'normalize_evstar_float', [], loops=2, props=['C01', 'C02']),
         job('unlinkAllDown', 'forest__unlinkAllDown', STUBS, loops=1, props=['C06']),
         job('deleteNode', 'forest__deleteNode', STUBS, props=['C06', 'C02']),
+        job('modifyReducedNodeInPlace', 'forest__modifyReducedNodeInPlace', STUBS, props=['C02', 'C13', 'C01'], object_bits=12),
         job('createReducedNode', 'forest__createReducedNode', STUBS + NORM + ['forest__unlinkAllDown'], loops=3, object_bits=12),
     ],
 }
